@@ -127,6 +127,22 @@ theorem hash_eq_spec_right_outer (lk rk : List (Row → Val)) (nL nR : Nat) (Ls 
       (joinRel .rightOuter (equiOn nL lk rk (fun _ => some true)) nL nR (flat Ls) (flat Rs)) :=
   hash_eq_spec_right_outer_partial lk rk nL nR Ls Rs hlen hk
 
+/-- LEFT OUTER: hash join (matched flags per key, unmatched tail) = nested-loop join (bitmap pass)
+under KeysComparable. -/
+theorem hash_eq_nl_left_outer (lk rk : List (Row → Val)) (nL nR : Nat) (Ls Rs : List Chunk)
+    (hlen : ∀ l ∈ flat Ls, l.length = nL) (hk : KeysComparable lk rk (flat Ls) (flat Rs)) :
+    (flat (hashJoin .leftOuter lk rk nL nR Ls Rs)).Perm
+      (flat (nlJoin true (equiOn nL lk rk (fun _ => some true)) nR Ls Rs)) :=
+  (hash_eq_spec_left_outer_partial lk rk nL nR Ls Rs hlen hk).trans
+    (nl_eq_spec_left_outer (equiOn nL lk rk (fun _ => some true)) nL nR Ls Rs).symm
+
+/-- FULL OUTER (no nested-loop executor exists): hash join = the spec's full outer join. -/
+theorem hash_eq_spec_full_outer (lk rk : List (Row → Val)) (nL nR : Nat) (Ls Rs : List Chunk)
+    (hlen : ∀ l ∈ flat Ls, l.length = nL) (hk : KeysComparable lk rk (flat Ls) (flat Rs)) :
+    (flat (hashJoin .fullOuter lk rk nL nR Ls Rs)).Perm
+      (joinRel .fullOuter (equiOn nL lk rk (fun _ => some true)) nL nR (flat Ls) (flat Rs)) :=
+  hash_eq_spec_full_outer_partial lk rk nL nR Ls Rs hlen hk
+
 /-- without any hypothesis: the inner hash join returns the pairs whose key vectors are
 STRUCTURALLY equal (`DataValue`'s derived `Eq`), for every chunking of both inputs. -/
 theorem hashjoin_inner_structural (lk rk : List (Row → Val)) (nL nR : Nat) (Ls Rs : List Chunk) :
